@@ -342,6 +342,7 @@ class Ref:
                 return s.scope_result(e[2], {'_exception': t.value})
         if k == 'isnil':
             return s.lookup(e[1]) is None
+        if k == 'refvalue': return s.deep_copy(e[1]) if isinstance(e[1], Arr) else e[1]
         if k == 'err': raise RefError('injected erroring operation %d' % e[1])
         if k == 'except':
             depth = len(s.scopes); nsd = len(s.ns_stack); swd = len(getattr(s, '_switch_stack', []))
@@ -380,6 +381,8 @@ class Ref:
         if o == 'floor' and is_num(v): return rt.fround('floor', v, 32)
         if o == 'ceil' and is_num(v): return rt.fround('ceil', v, 32)
         if o == 'isnil_val': return v is None
+        if o == 'str': return ('strof', v)          # str/compile are only modelled as a pair: call compile str v == deep copy of v
+        if o == 'compile' and isinstance(v, tuple) and v[0] == 'strof': return Code([('refvalue', v[1])])
         if o == 'reverse' and isinstance(v, Arr): v.v.reverse(); return None
         raise RefUnsupported('unary ' + op)
     def deep_copy(s, a):
